@@ -274,7 +274,9 @@ public:
   virtual void actOnDefaultDecl(ArrayRef<Token> nameToks) override {
     // Resolve all of the inputs and outputs.
     for (const auto& nameTok: nameToks) {
-      StringRef name(nameTok.start, nameTok.length);
+      // Evaluate the token string.
+      SmallString<256> name;
+      evalString(nameTok, getCurrentScope(), name);
       Node* node = manifest->findNode(workingDirectory, name);
 
       if (node == nullptr) {
